@@ -1,7 +1,7 @@
 #!/usr/bin/env python3
 """Confirm a seeded change produced by a sub-agent in its scratch worktree and import it.
 
-  seed_confirm.py <seed-id> <property> <worktree> <demo-file-relative> [--needs "..."] [--demo-cmd "..."]
+  seed_confirm.py <seed-id> <property> <worktree> <demo-file-relative> [--needs "..."] [--demo-cmd "..."] [--ok-regex "..."]
 
 In the worktree (mutation applied, as the agent left it):
   1. `git diff -- src may_queue/src` must equal mutation.diff and apply to /repo's HEAD;
@@ -28,6 +28,7 @@ def main():
     needs = sys.argv[sys.argv.index('--needs') + 1] if '--needs' in sys.argv else ''
     demo_name = os.path.splitext(os.path.basename(demo))[0]
     demo_cmd = sys.argv[sys.argv.index('--demo-cmd') + 1] if '--demo-cmd' in sys.argv else f'timeout 300 cargo test --offline --test {demo_name}'
+    ok_re = sys.argv[sys.argv.index('--ok-regex') + 1] if '--ok-regex' in sys.argv else 'test result: ok'
     out = f'{ROOT}/seeded/{sid}'
     os.makedirs(out, exist_ok=True)
     rc, diff, _ = sh('git diff -- src may_queue/src', wt)
@@ -54,7 +55,8 @@ def main():
         res = []
         for i in range(n):
             rc, o, dt = sh(demo_cmd + ' 2>&1 | tail -15', wt, timeout=400)
-            ok = 'test result: ok' in o and 'FAILED' not in o
+            import re
+            ok = bool(re.search(ok_re, o)) and 'FAILED' not in o
             res.append({'passed': ok, 'wall_s': round(dt, 1), 'tail': o.strip().splitlines()[-3:]})
         return res
     meta['confirmation']['demo_with_change'] = demo_runs(3)
